@@ -1,5 +1,5 @@
 // Command rewriteimports rewrites, in the non-test Go files of the given
-// directories, the import specs "os" and "path/filepath" to the simulated
+// directories, the import specs "os", "path/filepath" and "crypto/rand" to the simulated
 // mirrors. Nothing else in the files is touched.
 package main
 
@@ -18,6 +18,7 @@ import (
 var repl = map[string][2]string{
 	"os":            {"os", "github.com/bartventer/httpcache/verifsim/simos"},
 	"path/filepath": {"filepath", "github.com/bartventer/httpcache/verifsim/simfilepath"},
+	"crypto/rand":   {"rand", "github.com/bartventer/httpcache/verifsim/simrand"},
 }
 
 func main() {
